@@ -313,6 +313,9 @@ def run(ctx):
             if isinstance(x, ast.Assign):
                 for t in x.targets:
                     d = dotted(t)
+                    # the child offset / extent element may be held in a local (`chOff = self.chOff`)
+                    if d and d.split(".")[0] in rval and dotted(rval[d.split(".")[0]]):
+                        d = dotted(rval[d.split(".")[0]]) + d[len(d.split(".")[0]):]
                     if d in WANT:
                         stored[d] = comp_index(x.value)
         up = [i for i, x in enumerate(sts) if isinstance(x, ast.Expr) and isinstance(x.value, ast.Call)
